@@ -266,7 +266,7 @@ def AbsSite.good (d : AbsSite) : Bool := d.congruent && d.freshOrImmutable
 
 /-! ### The real sites and their declared classification
 
-  One entry per cache site of /repo/src/typelib (the 51 boolean / name-valued predicates of
+  One entry per cache site of /repo/src/typelib (the boolean / name-valued predicates of
   py/inspection.py share an entry).  `harness/props/c12.py` discovers the sites of the imported
   library (every module attribute with `cache_clear`), maps each to its entry, and CHECKS the
   declared classification on the real functions on every run:
@@ -291,8 +291,8 @@ inductive RealSite
   | typingGenericCache -- typing.py `_tp_cache` behind `typing.List[...]`, `typing.Union[...]`
   | inspectPredicate   -- py/inspection.py: the `is…type` predicates, `name`, `qualname`, `cached_issubclass`, …
   | inspectUnwrap      -- py/inspection.py: `unwrap`, `origin`, `resolve_supertype`, `normalize_typevar`: return annotations
-  | cachedTypeHints    -- py/inspection.py:355, returns the cached `dict`
-  | cachedSignature    -- py/inspection.py:304 (`inspect.Signature`), :434 `safe_get_params` (mappingproxy)
+  | cachedTypeHints    -- py/inspection.py:355 `cached_type_hints`, :434 `safe_get_params`: return the cached `dict`
+  | cachedSignature    -- py/inspection.py:304 (`inspect.Signature`)
   | cachedSimpleAttrs  -- py/inspection.py:384 (tuple of names)
   | resolveModuleName  -- py/refs.py:140: result depends on the caller's stack frame
   | futureTransform    -- py/future.py:25, keyed by annotation *text*
@@ -339,7 +339,7 @@ def classify : RealSite → SiteClass
   | .delayedResolved    => ⟨true,  true,  false, false⟩
   | .typingGenericCache => ⟨false, true,  false, false⟩
   -- inspection
-  | .inspectPredicate   => ⟨true,  true,  false, false⟩  -- bool / str
+  | .inspectPredicate   => ⟨false, true,  false, false⟩  -- bool / str; `int | str == Union[int, str]` but `name` says "int | str" / "Union"
   | .inspectUnwrap      => ⟨false, true,  false, false⟩  -- returns the first-seen spelling of the annotation
   | .cachedTypeHints    => ⟨true,  true,  true,  false⟩  -- the cached dict; only read by the structured routines
   | .cachedSignature    => ⟨true,  true,  false, false⟩
